@@ -76,10 +76,13 @@ impl Bin {
     }
 }
 
+// The maximum depth of a binning scheme whose bin IDs fit in the 32-bit bin field.
+pub(crate) const MAX_DEPTH: u8 = 10;
+
 // `CSIv1.pdf` (2020-07-21)
 const fn bin_limit(depth: u8) -> i32 {
-    assert!(depth <= 10);
-    (1 << ((depth + 1) * 3)) / 7
+    assert!(depth <= MAX_DEPTH);
+    ((1i64 << ((depth + 1) * 3)) / 7) as i32
 }
 
 #[cfg(test)]
@@ -87,6 +90,14 @@ mod tests {
     use noodles_bgzf as bgzf;
 
     use super::*;
+
+    #[test]
+    fn test_max_id() {
+        assert_eq!(Bin::max_id(0), 1);
+        assert_eq!(Bin::max_id(5), 37449);
+        assert_eq!(Bin::max_id(9), 153391689);
+        assert_eq!(Bin::max_id(MAX_DEPTH), 1227133513);
+    }
 
     #[test]
     fn test_add_chunk() {
